@@ -207,7 +207,7 @@ pub fn gff(p: &TextParams) -> LinesModel {
         }
         let start = 1 + rng.usize_below(90_000);
         let end = start + rng.usize_below(5000);
-        let score = if rng.bool() { ".".to_string() } else { (*rng.pick(&["0.5", "12", "1e-5", "100"])).to_string() };
+        let score = if rng.bool() { ".".to_string() } else { (*rng.pick(&["0.5", "12", "2.25", "100"])).to_string() };
         let strand = *rng.pick(&["+", "-", ".", "?"]);
         let ty = *rng.pick(&["gene", "mRNA", "exon", "CDS"]);
         let phase = if ty == "CDS" { (*rng.pick(&["0", "1", "2"])).to_string() } else { ".".to_string() };
